@@ -36,9 +36,16 @@ type BadNaN struct {
 	F  float64 `json:"f"`
 }
 
+// Dyn is encodable or not depending on the value of its dynamic part.
+type Dyn struct {
+	ID      int            `json:"id"`
+	Payload any            `json:"payload"`
+	M       map[string]any `json:"m,omitempty"`
+}
+
 // Pub is one publish of the run.
 type Pub struct {
-	Kind string `json:"kind"` // ok badchan badfunc badnan reject timeout
+	Kind string `json:"kind"` // ok badchan badfunc badnan reject timeout dynok dynbad dynbadmap dynreject
 }
 
 type Case struct {
@@ -67,6 +74,8 @@ func idOfAny(ev any) int {
 	case BadFunc:
 		return e.ID
 	case BadNaN:
+		return e.ID
+	case Dyn:
 		return e.ID
 	}
 	return -1
@@ -102,9 +111,11 @@ func Run(c *Case) *vkit.Outcome {
 			closed = true
 		}
 		switch p.Kind {
-		case "ok", "reject", "timeout":
+		case "ok", "reject", "timeout", "dynok", "dynreject":
 			appendNo++
-			if p.Kind != "ok" {
+			if p.Kind == "reject" || p.Kind == "dynreject" {
+				plan[appendNo] = "reject"
+			} else if p.Kind == "timeout" {
 				plan[appendNo] = p.Kind
 			}
 		}
@@ -175,6 +186,7 @@ func Run(c *Case) *vkit.Outcome {
 		eventbus.Subscribe(bus, func(e BadChan) { handle(hi, e.ID) }, so...)
 		eventbus.SubscribeContext(bus, func(_ context.Context, e BadFunc) { handle(hi, e.ID) }, so...)
 		eventbus.Subscribe(bus, func(e BadNaN) { handle(hi, e.ID) }, so...)
+		eventbus.Subscribe(bus, func(e Dyn) { handle(hi, e.ID) }, so...)
 	}
 
 	type exp struct {
@@ -208,6 +220,22 @@ func Run(c *Case) *vkit.Outcome {
 			case "badnan":
 				e := BadNaN{ID: id, F: math.NaN()}
 				expect[id] = exp{p.Kind, true, reflect.TypeOf(e)}
+				publish(bus, c.UseCtx, e)
+			case "dynok", "dynreject":
+				e := Dyn{ID: id, Payload: map[string]any{"k": []any{1, "two"}}, M: map[string]any{"x": id}}
+				failed := p.Kind == "dynreject" || sqlClosed
+				expect[id] = exp{map[string]string{"dynok": "ok", "dynreject": "reject"}[p.Kind], failed, reflect.TypeOf(e)}
+				if !failed {
+					okOrder = append(okOrder, id)
+				}
+				publish(bus, c.UseCtx, e)
+			case "dynbad":
+				e := Dyn{ID: id, Payload: make(chan int)}
+				expect[id] = exp{"badchan", true, reflect.TypeOf(e)}
+				publish(bus, c.UseCtx, e)
+			case "dynbadmap":
+				e := Dyn{ID: id, Payload: "fine", M: map[string]any{"f": func() {}}}
+				expect[id] = exp{"badfunc", true, reflect.TypeOf(e)}
 				publish(bus, c.UseCtx, e)
 			default:
 				e := Good{ID: id, S: p.Kind}
@@ -304,7 +332,7 @@ func Run(c *Case) *vkit.Outcome {
 	// exactly one Append attempt per encodable publish (no retry)
 	encodable := 0
 	for _, p := range c.Pubs {
-		if p.Kind == "ok" || p.Kind == "reject" || p.Kind == "timeout" {
+		if p.Kind == "ok" || p.Kind == "reject" || p.Kind == "timeout" || p.Kind == "dynok" || p.Kind == "dynreject" {
 			encodable++
 		}
 	}
